@@ -1,8 +1,9 @@
 #!/bin/bash
-# Seeded-change tooling.
-#   tools/mutant.sh confirm <dir>            dir holds patch.diff + demo *_test.go: confirm in a scratch worktree that the change
-#                                            compiles, passes the existing suite, and that the demo fails with it and passes without it
-#   tools/mutant.sh detect <patch> <ID>...   apply the patch to /repo, run the quick checks of the given properties (default: all), undo
+# Seeded-change tooling. Nothing here touches /repo itself: every experiment runs in a scratch git worktree of /repo under /tmp.
+#   tools/mutant.sh confirm <dir>            dir holds patch.diff + demo *_test.go: confirm that the change compiles, passes the
+#                                            existing suite, and that the demo fails with it and passes without it
+#   tools/mutant.sh detect <patch> <ID>...   apply the patch to a scratch worktree and run the quick checks of the given
+#                                            properties (default: all registered checks) against that worktree
 export GOFLAGS=-mod=mod GOPROXY=off GOSUMDB=off GOTOOLCHAIN=local
 cmd=$1; shift
 pkgdir() { # package name -> directory
@@ -22,7 +23,6 @@ confirm)
   trap 'git -C /repo worktree remove --force "$wt" >/dev/null 2>&1' EXIT
   cd "$wt" || exit 2
   if ! git apply "$dir/patch.diff"; then echo "CONFIRM FAIL: patch does not apply"; exit 1; fi
-  if ! go build ./... 2>&1 | tail -5; then :; fi
   go build ./... >/dev/null 2>&1 || { echo "CONFIRM FAIL: does not compile"; exit 1; }
   if ! go test -vet=off -count=1 ./... > "$wt/suite.log" 2>&1; then echo "CONFIRM FAIL: existing suite fails with the change"; grep -E '^(---|FAIL|ok)' "$wt/suite.log" | head; exit 1; fi
   echo "suite passes with the change"
@@ -53,14 +53,14 @@ detect)
   patch=$(realpath "$1"); shift
   ids=("$@")
   [ ${#ids[@]} -gt 0 ] || ids=($(python3 -c "import json;print(' '.join(c['property_id'] for c in json.load(open('/verif/MANIFEST.json'))['checks']))"))
-  cd /repo || exit 2
-  [ -z "$(git status --porcelain)" ] || { echo "/repo is dirty"; exit 2; }
-  git apply "$patch" || { echo "patch does not apply to /repo"; exit 2; }
-  trap 'git -C /repo checkout -- . ' EXIT
-  cd /verif
+  wt=/tmp/mdet.$$
+  git -C /repo worktree add -q --detach "$wt" HEAD || exit 2
+  trap 'git -C /repo worktree remove --force "$wt" >/dev/null 2>&1' EXIT
+  git -C "$wt" apply "$patch" || { echo "patch does not apply"; exit 2; }
+  cd /verif || exit 2
   for id in "${ids[@]}"; do
-    out=$(VERIF_EVIDENCE_SCRATCH=1 ./check "$id" ${VERIF_TIER:-quick} 2>&1); rc=$?
-    echo "$id rc=$rc $(echo "$out" | grep -E -m2 'VIOLATION|BROKEN' | cut -c1-260)"
+    out=$(VERIF_REPO="$wt" VERIF_EVIDENCE_SCRATCH=1 ./check "$id" ${VERIF_TIER:-quick} 2>&1); rc=$?
+    echo "$id rc=$rc $(echo "$out" | grep -E -m1 'VIOLATION|BROKEN' | cut -c1-260)"
   done
   ;;
 esac
